@@ -114,11 +114,21 @@ def run_cases(mod, sp, specs, log):
                 # infrastructure problem, not a violation.
                 tb = traceback.extract_tb(e.__traceback__)
                 lib_dir = os.path.dirname(os.path.abspath(sp.__file__))
-                last = tb[-1].filename if tb else ''
+                # innermost frame that belongs to the library or to the harness (frames of third-party code
+                # such as numpy, reached FROM one of the two, are skipped: a numpy broadcast error raised
+                # under BSplineBasis.matches is the library's exception, not the oracle's)
+                harness_dir = os.path.dirname(os.path.abspath(__file__))
+                last, last_fr = '', (tb[-1] if tb else None)
+                for fr in reversed(tb):
+                    fa = os.path.abspath(fr.filename)
+                    if fa.startswith(lib_dir) or fr.filename.replace('\\', '/').endswith('splipy/basis_eval.pyx') \
+                            or fa.startswith(harness_dir):
+                        last, last_fr = fr.filename, fr
+                        break
                 in_lib = os.path.abspath(last).startswith(lib_dir) or last.replace('\\', '/').endswith('splipy/basis_eval.pyx')
                 if in_lib and d:
                     ofail = ['the library raised %s (%s) inside the property experiment, at %s:%s; model and implementation '
-                             'disagree on this input as well' % (type(e).__name__, str(e)[:120], os.path.basename(last), tb[-1].lineno)]
+                             'disagree on this input as well' % (type(e).__name__, str(e)[:120], os.path.basename(last), last_fr.lineno)]
                 else:
                     raise RuntimeError('oracle crashed on %s: %s\n%s' % (jdump(s)[:300], e, traceback.format_exc()))
         results.append({'spec': s, 'line': ln, 'impl': iv, 'model': mv, 'diff': d, 'oracle': ofail})
